@@ -24,9 +24,12 @@ Streams    :
                and compared with the Lean model `assignableVars`.
 """
 import collections
+import json
 import multiprocessing
 import os
 import random
+import subprocess
+import tempfile
 import time
 
 import common
@@ -41,6 +44,36 @@ MODES = (None, "lower", "capitalize")
 
 
 # ------------------------------------------------------------------ helpers
+def run_driver(requests, timeout=900):
+    """as common.run_driver, but through temporary FILES instead of pipes.  While the worker pool of the programs
+    stream is alive it forks replacement workers at arbitrary moments (maxtasksperchild); a fork that happens between
+    subprocess's pipe creation and close leaves a copy of the write end of the driver's stdin in a worker, the driver
+    then never sees end-of-file and `communicate` waits for ever (observed: two hangs in calibration).  Regular files
+    have no such end-of-file problem."""
+    if not os.path.exists(common.DRV):
+        raise common.HarnessError("driver not built: " + common.DRV)
+    with tempfile.TemporaryFile("w+") as fin, tempfile.TemporaryFile("w+") as fout, tempfile.TemporaryFile("w+") as ferr:
+        for r in requests:
+            fin.write(json.dumps(r, separators=(",", ":")) + "\n")
+        fin.flush()
+        fin.seek(0)
+        try:
+            p = subprocess.run([common.DRV], stdin=fin, stdout=fout, stderr=ferr, timeout=timeout)
+        except subprocess.TimeoutExpired:
+            raise common.HarnessError("driver did not answer %d requests within %d s" % (len(requests), timeout))
+        fout.seek(0)
+        out = fout.read()
+        if p.returncode != 0:
+            ferr.seek(0)
+            raise common.HarnessError("driver exited %d: %s" % (p.returncode, ferr.read()[-500:]))
+    lines = out.split("\n")
+    if lines and lines[-1] == "":
+        lines.pop()
+    if len(lines) != len(requests):
+        raise common.HarnessError("driver answered %d lines for %d requests" % (len(lines), len(requests)))
+    return [json.loads(l) for l in lines]
+
+
 def mode_name(m):
     return "plain" if m is None else m
 
@@ -154,7 +187,7 @@ def reserved_stream(run, tables, variant):
         else:
             raise common.HarnessError("reserved word found by the table walk but not on the gen_identifier path: %r" % (demo,))
     # correspondence with the model on the regenerated tables
-    ans = common.run_driver([{"op": "closed.collisions", "fixed": variant == "fixed"}])[0]
+    ans = run_driver([{"op": "closed.collisions", "fixed": variant == "fixed"}])[0]
     if "error" in ans:
         raise common.HarnessError("closed.collisions: " + ans["error"])
     model = sorted(tuple(x) for x in ans["r"])
@@ -333,7 +366,7 @@ def pool_stream(run, tables, variant, ndraws):
         finals.append(final)
         sizes[size] += 1
         draws += sum(1 for o in rq["ops"] if o[0] in ("word", "gen_identifier") and o[-1] is not None)
-    answers = common.run_driver(reqs)
+    answers = run_driver(reqs)
     diffs = 0
     for hist, rq, real, final, a in zip(hists, reqs, reals, finals, answers):
         run.count({"stream": "pool", "initial": len(rq["initial"]), "ops": len(rq["ops"])}, nontrivial=bool(rq["ops"]))
@@ -523,7 +556,7 @@ def programs_stream(run, specs, tables, budget_s, label="programs", flush_at=96)
     def flush():
         if not pending:
             return
-        answers = common.run_driver([p[4] for p in pending])
+        answers = run_driver([p[4] for p in pending])
         for (what, spec, x, nbad, rq_export), a in zip(pending, answers):
             lang = spec["lang"]
             if "error" in a:
@@ -691,7 +724,7 @@ def mutant_stream(run, exports, tables, limit):
             owners.append((spec, name, expect))
     if not reqs:
         return
-    answers = common.run_driver(reqs)
+    answers = run_driver(reqs)
     tally = collections.Counter()
     for (spec, name, expect), a in zip(owners, answers):
         if "error" in a:
@@ -717,7 +750,7 @@ def init_cov(run):
 
 def variant_stream(run, tables):
     variant = detect_variant(tables)
-    cur = common.run_driver([{"op": "closed.variant"}])[0].get("r")
+    cur = run_driver([{"op": "closed.variant"}])[0].get("r")
     run.cov["tree_variant"] = variant
     run.cov["lean_current_variant"] = cur
     run.log("tree implements remove_reserved_words variant %s; Lean Pool.codeIsFixed says %s" % (variant, cur))
@@ -796,7 +829,7 @@ def replay(run, rp):
     if stream == "pool":
         variant = detect_variant(tables)
         rq, real, final, problems = pool_execute(rp["history"], tables, "fixed" if variant == "fixed" else "asIs")
-        detail = pool_compare(rq, real, final, common.run_driver([rq])[0])
+        detail = pool_compare(rq, real, final, run_driver([rq])[0])
         run.count({"stream": "pool", "initial": len(rq["initial"]), "ops": len(rq["ops"])})
         run.log("replay pool: reference problems %s, model difference %s" % (problems, detail))
         if problems:
